@@ -1,0 +1,93 @@
+//go:build verif
+// +build verif
+
+package spg
+
+import (
+	"fmt"
+	"math/big"
+	"sort"
+)
+
+// Exported accessors for a verification harness that lives outside the
+// package. Compiled only with the "verif" build tag.
+
+// VerifRandomUint32n is the package's bounded draw.
+func VerifRandomUint32n(n uint32) uint32 { return randomUint32n(n) }
+
+// VerifCount is the exact integer the character-recipe entropy is the log2 of.
+func VerifCount(r CharRecipe) *big.Int {
+	r.buildCharacterList()
+	return r.n()
+}
+
+// VerifHasAcceptableFailRate exposes the pre-flight refusal decision.
+func VerifHasAcceptableFailRate(r CharRecipe) (bool, float32) {
+	r.buildCharacterList()
+	return r.hasAcceptableFailRate()
+}
+
+// VerifWords returns a copy of the kept words in index order.
+func VerifWords(wl *WordList) []string {
+	if wl == nil {
+		return nil
+	}
+	return append([]string(nil), wl.words...)
+}
+
+// VerifUncapCount returns the stored count of uncapitalisable words.
+func VerifUncapCount(wl *WordList) int {
+	if wl == nil {
+		return -1
+	}
+	return wl.unCapitalizableCount
+}
+
+// VerifList returns the word list a recipe refers to.
+func VerifList(r WLRecipe) *WordList { return r.list }
+
+// VerifNewTokens builds a token sequence from values and types.
+func VerifNewTokens(values []string, types []TokenType) Tokens {
+	ts := make(Tokens, len(values))
+	for i := range values {
+		ts[i] = Token{values[i], types[i]}
+	}
+	return ts
+}
+
+// VerifNewPassword builds a Password from tokens and entropy.
+func VerifNewPassword(ts Tokens, e float32) *Password {
+	return &Password{tokens: ts, Entropy: e}
+}
+
+// VerifDerivedState dumps the unexported, computed fields of a character
+// recipe value (nil for a value no pointer-receiver method has touched).
+func VerifDerivedState(r CharRecipe) string {
+	out := "allowed="
+	if r.allowedSet == nil {
+		out += "<nil>"
+	} else {
+		s := []string{}
+		for _, e := range r.allowedSet.ToSlice() {
+			s = append(s, fmt.Sprint(e))
+		}
+		sort.Strings(s)
+		out += fmt.Sprint(s)
+	}
+	out += " required="
+	if r.requiredSets == nil {
+		out += "<nil>"
+	} else {
+		for _, rs := range r.requiredSets {
+			s := []string{}
+			if rs.s != nil {
+				for _, e := range rs.s.ToSlice() {
+					s = append(s, fmt.Sprint(e))
+				}
+			}
+			sort.Strings(s)
+			out += rs.Name + fmt.Sprint(s) + ";"
+		}
+	}
+	return out
+}
